@@ -704,10 +704,13 @@ def scripted_expected(tag, prog, inp, script):
 def random_inputs(rnd, prog, n_runs, maxlen, extra=()):
     reqs = []
     sig = list(prog.sigma)
-    from progs import sample_regex
+    from progs import sample_regex, KNOWN_CHARS
     rules_ = list(prog.rules())
     env_ = prog.envmap()
     bi_ = getattr(prog, "bi", None)
+    # definitions whose built-in tables are given to the specification as their ASCII restriction
+    # (families.ASCII_BI) are only ever run on ASCII input
+    known_ = [c for c in KNOWN_CHARS if c < 128] if getattr(prog, "ascii_only", False) else None
     for t in range(n_runs):
         r = rnd.random()
         if r < 0.05:
@@ -720,9 +723,9 @@ def random_inputs(rnd, prog, n_runs, maxlen, extra=()):
             inp = []
             for _ in range(rnd.choice([1, 2, 3, 4, 6])):
                 rl = rnd.choice(rules_)
-                frag = sample_regex(rl["re"], env_, rnd, sig, bi_)
+                frag = sample_regex(rl["re"], env_, rnd, sig, bi_, known_chars=known_)
                 if rl.get("ctx") is not None and rnd.random() < 0.5:
-                    frag = frag + sample_regex(rl["ctx"], env_, rnd, sig, bi_)
+                    frag = frag + sample_regex(rl["ctx"], env_, rnd, sig, bi_, known_chars=known_)
                 q = rnd.random()
                 if q < 0.2 and frag:
                     frag = frag[:-1]
